@@ -45,19 +45,21 @@ func (pattern glob) Match(str string) bool {
 	var starIdx, matchIdx int = -1, -1
 
 	for j < len(str) {
-		if i < len(pattern) && (pattern[i] == str[j] || pattern[i] == '\\' && i+1 < len(pattern) && pattern[i+1] == str[j]) {
+		if i < len(pattern) && pattern[i] == '*' {
+			// there's a * wildcard in the pattern
+			// (checked first: an unescaped '*' is never a literal, even if the string has a '*' here)
+			starIdx = i
+			matchIdx = j
+			i++
+		} else if i < len(pattern) && (pattern[i] != '\\' && pattern[i] == str[j] || pattern[i] == '\\' && i+1 < len(pattern) && pattern[i+1] == str[j]) {
 			// characters match or if there's an escaped character that matches
+			// (a '\\' in the pattern is never a literal by itself: it only makes the next character literal)
 			if pattern[i] == '\\' {
 				// skip the escape character
 				i++
 			}
 			i++
 			j++
-		} else if i < len(pattern) && pattern[i] == '*' {
-			// there's a * wildcard in the pattern
-			starIdx = i
-			matchIdx = j
-			i++
 		} else if starIdx != -1 {
 			// there's a previous * wildcard, backtrack
 			i = starIdx + 1
